@@ -11,6 +11,7 @@ open Casket.Lifecycle
 
 def parseSrv (s : String) : Option Srv := do
   let cs := s.toList
+  let (cs, se) := if cs.getLast? == some '~' then (cs.dropLast, true) else (cs, false)
   let (cs, lf) := if cs.getLast? == some '!' then (cs.dropLast, true) else (cs, false)
   match cs with
   | k :: ds =>
@@ -21,7 +22,7 @@ def parseSrv (s : String) : Option Srv := do
       | _ => none)
     if ds.isEmpty then none else
     let a ← (String.ofList ds).toNat?
-    pure { kind := kind, addr := a, listenFail := lf }
+    pure { kind := kind, addr := a, listenFail := lf, stopErr := se }
   | [] => none
 
 def parseStage : String → Option Stage
@@ -118,6 +119,7 @@ def traceJudge (f : List String) (out : String) : String :=
   match f.mapM parseOp with
   | none => if out = "bad-case" then "ok" else "bad:malformed-case-accepted:" ++ out
   | some ops =>
+    if (out.splitOn "|").any (fun seg => seg.startsWith "hang;") then "bad:stop-never-returns:casket.Stop() did not return" else
     match (out.splitOn "|").mapM parseSeg with
     | none => "bad:unparsable:" ++ out
     | some segs => Casket.LifecycleSpec.verdict ops segs
